@@ -72,7 +72,9 @@ class Bus:
             first = {"low": 100, "wrap": (1 << eo) - nb // 2}[where]
             base = base[:3] + cluster_paths(eo, first, nb, per)
         if o.get("rich"):
-            base = base + ["", " ", "p" * 150, "\u00e4\u00f6\u00fc\u20ac\U0001F600", "a\tb\"c\\d", "\u0001", "q/" * 40, "A/B", "a/b/"]
+            base = base + ["", " ", "p" * 150, "\u00e4\u00f6\u00fc\u20ac\U0001F600", "a\tb\"c\\d", "\u0001", "q/" * 40, "A/B", "a/b/",
+                           # paths that are not UTF-8 (escaped surrogates stand for the raw bytes): truncated at the end, stray continuation
+                           "caf\udcc3", "eur\udce2\udc82", "\udc80x", "t/\udcf0\udc9f\udc98"]
         self.paths = o["paths"] or base
         self.npeer = 0
         self.peers = []
